@@ -40,13 +40,17 @@ STYLE_MAP_REL = "http://schemas.zwobble.org/mammoth/style-map"
 class Spelling:
     def __init__(self, strict=False, rename_prefixes=False, default_ns=False, declaration="standalone", encoding="utf-8",
                  bom=False, cdata=False, charrefs=False, comments=False, pis=False, whitespace=False, zip_order="normal",
-                 compression=zipfile.ZIP_DEFLATED, rename_parts=False, noise=False, rng=None, nested_default_ns=False):
+                 compression=zipfile.ZIP_DEFLATED, rename_parts=False, noise=False, rng=None, nested_default_ns=False, stale_parts=False):
         self.strict, self.rename_prefixes, self.default_ns = strict, rename_prefixes, default_ns
         self.declaration, self.encoding, self.bom = declaration, encoding, bom
         self.cdata, self.charrefs, self.comments, self.pis, self.whitespace = cdata, charrefs, comments, pis, whitespace
         self.zip_order, self.compression, self.rename_parts, self.noise = zip_order, compression, rename_parts, noise
         self.rng = rng
         self.nested_default_ns = nested_default_ns
+        # unreferenced left-over parts at the conventional names, beside the renamed parts the relationships point to
+        self.stale_parts = stale_parts
+        if stale_parts:
+            self.rename_parts = True
 
     def uri(self, prefix):
         if prefix in TRANSITIONAL:
@@ -320,6 +324,13 @@ def build(pkg, sp=None):
             if key in ("footnotes", "endnotes", "comments"):
                 dd, bb = names[key].rsplit("/", 1)
                 entries.append(("%s/_rels/%s.rels" % (dd, bb), drels))
+    if sp.stale_parts:
+        stale = {"document": X("w:document", {}, [X("w:body", {}, [X("w:p", {}, [X("w:r", {}, [X("w:t", {}, [XmlText("stale part")])])])])]),
+                 "styles": X("w:styles", {}, [X("w:style", {"w:type": "paragraph", "w:styleId": "Heading1"}, [X("w:name", {"w:val": "Stale"})])]),
+                 "numbering": X("w:numbering"), "footnotes": X("w:footnotes"), "endnotes": X("w:endnotes"), "comments": X("w:comments")}
+        for key in ("document", "styles", "numbering", "footnotes", "endnotes", "comments"):
+            if key in roots:
+                entries.append(("word/%s.xml" % key, stale[key]))
     for name, data in sorted(pkg.media.items()):
         entries.append((name, bytes(data)))
     if pkg.embedded_style_map is not None:
